@@ -396,6 +396,7 @@ func runC09(c *Ctx) {
 	// lives under its MAC entry's row lock) happens with some lock held, in a constructor, on a freshly made object - or is
 	// one of the sites listed here with the reason why no lock is needed. A new field written from a function that several
 	// goroutines run (a scratch buffer shared by the spoof loops, say) has no entry in the table and lands here.
+	runC09AtomicOnly(c)
 	r.Rule("unlisted-writes", "writes to fields of lock-bearing structs and to package-level variables outside the guarded-by table hold a lock or are listed single-writer sites", 8)
 	{
 		allowed := map[string]string{
@@ -764,5 +765,86 @@ func renderSite(c *Ctx, an *locks.Analysis, fn *ssa.Function, i ssa.Instruction,
 		r.Add(core.Obligation{Rule: "render-sites", Key: key, Func: core.FuncName(fn), Pos: c.P.Pos(core.PosOf(i)), Status: st,
 			Basis:  fmt.Sprintf("rendered under %s", must),
 			Detail: fmt.Sprintf("the renderer of %s reads %s, which needs one of %v; at this call the locks certainly held are %s (entry lockset %s)", k, g.field, g.read, must, an.Entry[fn])})
+	}
+}
+
+// runC09AtomicOnly: a word that some goroutine accesses through sync/atomic is accessed through sync/atomic everywhere:
+// no plain load or store of a struct field or package-level variable whose address is passed to a sync/atomic
+// function anywhere in the module (a plain read "to skip the atomic store on the hot path" races with the atomic
+// writer and may act on a stale value). Composite-literal initialisation of a fresh object is not an access.
+func runC09AtomicOnly(c *Ctx) {
+	r := c.R
+	r.Rule("atomic-only", "a field or variable accessed with sync/atomic is never read or written plainly", 1)
+	keyOf := func(a ssa.Value) string {
+		switch t := a.(type) {
+		case *ssa.FieldAddr:
+			return fieldOwner(t)
+		case *ssa.Global:
+			return "global " + t.String()
+		}
+		return ""
+	}
+	atomicKeys := map[string]string{} // key -> first atomic site
+	atomicOperand := map[ssa.Value]bool{}
+	for _, fn := range c.P.ModuleFunctions() {
+		core.EachInstr(fn, func(i ssa.Instruction) {
+			call, ok := i.(ssa.CallInstruction)
+			if !ok {
+				return
+			}
+			cal := call.Common().StaticCallee()
+			if cal == nil || cal.Pkg == nil || cal.Pkg.Pkg.Path() != "sync/atomic" || len(call.Common().Args) == 0 {
+				return
+			}
+			a := call.Common().Args[0]
+			if k := keyOf(a); k != "" {
+				if _, seen := atomicKeys[k]; !seen {
+					atomicKeys[k] = c.P.Pos(core.PosOf(i))
+				}
+				atomicOperand[a] = true
+			}
+		})
+	}
+	keys := []string{}
+	for k := range atomicKeys {
+		keys = append(keys, k)
+	}
+	sort.Strings(keys)
+	for _, k := range keys {
+		var bad []string
+		for _, fn := range c.P.ModuleFunctions() {
+			core.EachInstr(fn, func(i ssa.Instruction) {
+				var addr ssa.Value
+				what := ""
+				switch t := i.(type) {
+				case *ssa.UnOp:
+					if t.Op == token.MUL {
+						addr, what = t.X, "reads"
+					}
+				case *ssa.Store:
+					addr, what = t.Addr, "writes"
+				}
+				if addr == nil || keyOf(addr) != k {
+					return
+				}
+				if fa, ok := addr.(*ssa.FieldAddr); ok {
+					if al, isAl := fa.X.(*ssa.Alloc); isAl && al.Comment == "complit" {
+						return
+					}
+				}
+				bad = append(bad, core.FuncName(fn)+" "+what+" it plainly at "+c.P.Pos(core.PosOf(i)))
+			})
+		}
+		st, det := core.Proved, ""
+		if len(bad) > 0 {
+			sort.Strings(bad)
+			st = core.Violated
+			det = k + " is accessed with sync/atomic (first at " + atomicKeys[k] + "), but " + strings.Join(bad, "; ") + ": a data race with the atomic accesses of the other goroutine"
+		}
+		r.Add(core.Obligation{Rule: "atomic-only", Key: "atomic-only " + k, Func: "-", Pos: atomicKeys[k], Status: st,
+			Basis: "every load and store of the word in the module goes through sync/atomic", Detail: det})
+	}
+	if len(keys) == 0 {
+		r.Add(core.Obligation{Rule: "atomic-only", Key: "atomic-only words", Func: "-", Status: core.Violated, Detail: "no sync/atomic access found in the module (ipHeartBeat was one)"})
 	}
 }
